@@ -276,6 +276,7 @@ func run(c *enum.Ctx) {
 	enum.Parallel(64, func(sh int) {
 		nt := enum.NontrivialSet{}
 		for i := sh; i < len(cases); i += 64 {
+			c.Doing(sh, cases[i])
 			c.Eval()
 			check(c, cases[i])
 			if cases[i].Kind == "word" || len(windows(cases[i].Seq, cases[i].K, cases[i].RNA)) > 0 {
